@@ -168,8 +168,10 @@ func (v *VLANAllocator) Get(nteID string) (*VLANAllocation, bool) {
 
 // findAvailable finds an available S-TAG/C-TAG pair.
 func (v *VLANAllocator) findAvailable() (uint16, uint16, error) {
-	// Try current S-TAG first
-	for sTag := v.currentSTag; sTag <= v.config.STagRange.End; sTag++ {
+	// Try current S-TAG first. The counter is an int: a uint16 counter wraps to 0
+	// after 65535 and `sTag <= End` would then never become false for End == 65535.
+	for s := int(v.currentSTag); s <= int(v.config.STagRange.End); s++ {
+		sTag := uint16(s)
 		cTag, err := v.findAvailableCTag(sTag)
 		if err == nil {
 			v.currentSTag = sTag
@@ -198,8 +200,9 @@ func (v *VLANAllocator) findAvailableCTag(sTag uint16) (uint16, error) {
 		return v.config.CTagRange.Start, nil
 	}
 
-	// Find first available C-TAG
-	for cTag := v.config.CTagRange.Start; cTag <= v.config.CTagRange.End; cTag++ {
+	// Find first available C-TAG (int counter, see findAvailable)
+	for c := int(v.config.CTagRange.Start); c <= int(v.config.CTagRange.End); c++ {
+		cTag := uint16(c)
 		if _, used := usage[cTag]; !used {
 			return cTag, nil
 		}
